@@ -215,6 +215,28 @@ CLAIMED = {
         technique='abstract interpretation into graph-algebra summaries and '
                   'fair rewrite templates + bounded validity of the '
                   'extracted terms; alphabet typestate'),
+    'C16': dict(
+        partial=True,
+        text='Hash-consing discipline decided on every path of the node '
+             'constructors: a non-terminal node is allocated only after '
+             '`low is not high` and after the unique-table lookup '
+             '(discovered) missed for exactly (var, low, high); the fresh '
+             'node stores the triple and is registered in one registry of '
+             'each child; the lookup scans one of those registries and '
+             'tests variable and the other child by identity; terminals '
+             'are allocated only on a table miss and stored; nothing else '
+             'allocates; node fields are written only by the reset routine '
+             'called from the constructors; registries are WeakSets; node '
+             '==/hash are identity; OBDD equality is root identity plus '
+             'ordering equality. Each clause is necessary for "one node per '
+             'triple" under every creation history.',
+        ref='3-C16',
+        note='trusted: WeakSet iteration yields exactly the live parents; '
+             'single-threaded use; behaviour under interleavings of '
+             'garbage collection and creation is not decided',
+        technique='typestate / dominance analysis on constructor paths, '
+                  'who-may-allocate and who-may-write rules, pairing of '
+                  'registration and lookup'),
     'C18': dict(
         partial=True,
         text='The expression parser of the OBDD module is interpreted '
